@@ -70,17 +70,47 @@ type BObs struct {
 	Count   int     `json:"count"`
 }
 
-func validBOp(op string) bool { return op == "sched" || op == "cancel" || op == "run" }
+// "ctx" (lanes only): the context under which the `pre` jobs were scheduled is cancelled; their
+// goroutines leave through the context branch and remove their name from the table if it is still
+// theirs.  For the model this is two steps of the lane, the call and (any time later) the removal.
+func validBOp(op string) bool { return op == "sched" || op == "cancel" || op == "run" || op == "ctx" }
+
+func hasCtx(b Burst) bool {
+	for _, l := range b.Lanes {
+		for _, op := range l {
+			if op == "ctx" {
+				return true
+			}
+		}
+	}
+	return false
+}
+
+// expandedLen: number of model steps of a lane.
+func expandedLen(l []string) int {
+	n := 0
+	for _, op := range l {
+		n++
+		if op == "ctx" {
+			n++
+		}
+	}
+	return n
+}
+
+var burstSeq atomic.Uint64
 
 // normaliseBurst: known operations only; no run request inside the lanes of a periodic burst (a
 // RunJob that succeeded on a periodic job can lose against a simultaneous CancelJob, its run is then
 // dropped: allowed, but not a function of the order of the table sections, which is all the burst
 // model follows); the jobs' time lies well after the burst.
 func normaliseBurst(b Burst) Burst {
+	// a RunJob that succeeded can also lose against a simultaneous cancellation of the context
+	ctx := hasCtx(b)
 	clean := func(ops []string, lane bool) []string {
 		out := []string{}
 		for _, op := range ops {
-			if !validBOp(op) || (lane && b.Periodic && op == "run") {
+			if !validBOp(op) || (lane && (b.Periodic || ctx) && op == "run") || (!lane && op == "ctx") {
 				continue
 			}
 			out = append(out, op)
@@ -144,6 +174,8 @@ func burstBody(b Burst, st *bshared) {
 	}
 	rootCtx, rootCancel := context.WithCancel(context.Background())
 	defer rootCancel()
+	preCtx, preCancel := context.WithCancel(rootCtx)
+	defer preCancel()
 
 	// bystanders: other names, far future; they must stay listed and never run
 	var bystanderRuns atomic.Int64
@@ -176,8 +208,11 @@ func burstBody(b Burst, st *bshared) {
 		}
 	}
 	counters := make([]atomic.Int64, nSched+1)
-	do := func(op string, id int) string {
+	do := func(jctx context.Context, op string, id int) string {
 		switch op {
+		case "ctx":
+			preCancel()
+			return "Ret Nil"
 		case "sched":
 			f := func(context.Context) { counters[id].Add(1) }
 			if b.Periodic {
@@ -188,9 +223,9 @@ func burstBody(b Burst, st *bshared) {
 					}
 					return t0.Add(ms(b.Due)), nil
 				}
-				return codeOf(svc.SchedulePeriodicJob(rootCtx, "c02", jobName, rt, f))
+				return codeOf(svc.SchedulePeriodicJob(jctx, "c02", jobName, rt, f))
 			}
-			return codeOf(svc.ScheduleJob(rootCtx, "c02", jobName, t0.Add(ms(b.Due)), f))
+			return codeOf(svc.ScheduleJob(jctx, "c02", jobName, t0.Add(ms(b.Due)), f))
 		case "cancel":
 			return codeOf(svc.CancelJob(rootCtx, jobName))
 		case "run":
@@ -223,7 +258,7 @@ func burstBody(b Burst, st *bshared) {
 	// 1. pre
 	pre := BLane{Codes: []string{}, Runs: [][3]int{}}
 	for i, op := range b.Pre {
-		pre.Codes = append(pre.Codes, strip(do(op, preIDs[i])))
+		pre.Codes = append(pre.Codes, strip(do(preCtx, op, preIDs[i])))
 		synctest.Wait()
 		tick()
 	}
@@ -233,10 +268,17 @@ func burstBody(b Burst, st *bshared) {
 	var ready atomic.Int32
 	var release atomic.Bool
 	var wg sync.WaitGroup
+	// every other repetition the lanes start a few hundred nanoseconds apart
+	seq := burstSeq.Add(1)
+	var sink atomic.Int64
 	for i, l := range b.Lanes {
-		lanes[i] = BLane{Codes: make([]string, len(l)), Runs: [][3]int{}}
-		for j := range l {
+		lanes[i] = BLane{Codes: make([]string, expandedLen(l)), Runs: [][3]int{}}
+		for j := range lanes[i].Codes {
 			lanes[i].Codes[j] = "Hung"
+		}
+		delay := 0
+		if seq%2 == 0 {
+			delay = []int{0, 50, 150, 400, 1000, 0, 250, 600}[((seq/2)*2654435761+uint64(i)*40503)>>5%8]
 		}
 		wg.Add(1)
 		go func() {
@@ -247,8 +289,17 @@ func burstBody(b Burst, st *bshared) {
 					runtime.Gosched()
 				}
 			}
+			for d := 0; d < delay; d++ {
+				sink.Add(1)
+			}
+			k := 0
 			for j, op := range l {
-				lanes[i].Codes[j] = strip(do(op, laneIDs[i][j]))
+				lanes[i].Codes[k] = strip(do(rootCtx, op, laneIDs[i][j]))
+				k++
+				if op == "ctx" {
+					lanes[i].Codes[k] = "Nil" // the removal by the goroutines: no code of its own
+					k++
+				}
 			}
 			tick()
 		}()
@@ -382,6 +433,9 @@ func emptyBObs(b Burst) BObs {
 		bl := BLane{Codes: []string{}, Runs: [][3]int{}}
 		for _, op := range l {
 			bl.Codes = append(bl.Codes, "Nil")
+			if op == "ctx" {
+				bl.Codes = append(bl.Codes, "Nil")
+			}
 			if op == "sched" {
 				bl.Runs = append(bl.Runs, [3]int{})
 			}
@@ -462,9 +516,20 @@ func bopTerm(op string) string {
 }
 
 func burstTerm(b Burst) string {
+	npre := 0
+	for _, op := range b.Pre {
+		if op == "sched" {
+			npre++
+		}
+	}
 	ops := func(l []string) string {
 		items := make([]string, 0, len(l))
 		for _, op := range l {
+			if op == "ctx" {
+				// the jobs scheduled under the cancelled context are those of the sequential phase
+				items = append(items, "BoCtx", "(BoRelease "+N(uint64(npre))+")")
+				continue
+			}
 			items = append(items, bopTerm(op))
 		}
 		return List(items)
@@ -535,7 +600,15 @@ func genBurst(r *Rand) (Burst, []string) {
 		}
 		return out
 	}
-	switch fam := r.Intn(8); fam {
+	switch fam := r.Intn(10); fam {
+	case 8, 9: // the context of the job holding the name is cancelled while others take the name over
+		b.Pre = []string{"sched"}
+		b.Lanes = [][]string{{"ctx"}}
+		k := r.Range(1, 4)
+		for i := 0; i < k; i++ {
+			b.Lanes = append(b.Lanes, [][]string{{"cancel", "sched"}, {"cancel", "sched"}, {"sched"}, {"cancel"}}[r.Intn(4)])
+		}
+		tags = append(tags, "burst:ctx+takeover")
 	case 0, 1: // k callers schedule the free name at once
 		k := r.Range(2, 8)
 		b.Lanes = rep("sched", k)
